@@ -153,10 +153,22 @@ theorem imagePatch_eq : ∀ (mem : Bytes) (k : Nat) (ds : Bytes), k + ds.length 
     | simp [h0, h1, h2, h3, imagePatch_eq d.mem a.toNat data h1]
     | simp [h0, h1, h2, h3]
 
+/-- The code adds index × 1 for a `<pIndex>` without offset: with the reading
+`pIndexDefaultOffset = .one` the effective address elements are the declared ones.  This is
+the lemma that fails when `pIndexDefaultOffset` is flipped to `.registerLength` (see the
+DOUBT note in Spec/GenApiSem.lean): the refinement certifies whichever reading is transcribed. -/
+@[simp] theorem effectiveAddrs_eq (rb : RegBase) : effectiveAddrs rb = rb.addrs := by
+  unfold effectiveAddrs effectiveAddrsFor
+  induction rb.addrs with
+  | nil => rfl
+  | cons k ks ih =>
+    simp only [List.map_cons, ih, List.cons.injEq, and_true]
+    cases k <;> simp [pIndexDefaultOffset]
+
 /-- rewrite the specification's first-principles pieces into the model's helpers -/
 macro "spec_norm" : tactic => `(tactic|
   simp only [intValued_eq, floatValued_eq, enumValued_eq, strValued_eq, selectIndexed_eq, i64Result_add,
-    i64Result_mul, imageRead_eq, imageWrite_eq, firstEntryWithValue_eq] at *)
+    i64Result_mul, imageRead_eq, imageWrite_eq, firstEntryWithValue_eq, effectiveAddrs_eq] at *)
 
 /-! ### exec ⇒ spec -/
 
@@ -733,7 +745,7 @@ theorem regAddressF_iff (cx : Ctx F E) (hnf : NoFormulaNodes cx) (d : Nat) (n : 
     cases hr : nd.regBase? with
     | none => simp
     | some rb =>
-      simp only [regAddress]
+      simp only [regAddress, effectiveAddrs_eq]
       exact ⟨sumAddrs_spec (valIH cx hnf d) _ _ _, addrSum_exec (specIH cx d) _ _ _⟩
 
 theorem regLengthF_iff (cx : Ctx F E) (hnf : NoFormulaNodes cx) (d : Nat) (n : NodeId) (s : S F) (l : Int) :
